@@ -1,6 +1,7 @@
 """C07 — every awaited runtime future resolves exactly once with its own result."""
 from __future__ import annotations
 
+import os
 import random
 
 from harness import rtcheck, rtfine, rtmodel
@@ -55,6 +56,9 @@ def run(ctx: Ctx) -> Outcome:
     # a few executions on real OS processes and sockets (OS scheduling), validated by the same L1 specification
     real = [{'topo': ['detached', [2]], 'progs': rtcheck.LIB[n], 'clients': [[['submit', 'H0', 'root'], ['result', 'H0']]],
              'sched': ['os'], 'lines': False, 'crash': None, 'probe': False} for n in (['W', 'N'] if ctx.quick else ['W', 'N', 'A', 'B', 'D'] * 4)]
+    if os.environ.get('VERIF_SKIP_REAL'):
+        # only for demonstrations on deliberately broken trees on which a real multi-process runtime hangs for minutes
+        real = []
     real_traces = rtcheck.run_real_scenarios(real, ctx)
     model_cov['real_process_runs'] = len(real_traces)
     # ... its behaviours and historical counterexamples replayed into the real Worker line by line, recorded runs validated back
